@@ -437,9 +437,9 @@ func (m *machine) eval(script []byte, scriptIdx int, endHook func() error) (err 
 			if !done && len(vfExec) != 0 {
 				return fail("UNBALANCED_CONDITIONAL")
 			}
-			if !done {
-				m.alt = nil
-			}
+			// the alt stack does not outlive the script (also when a top-level
+			// OP_RETURN ended it); the last snapshot of a script shows it empty
+			m.alt = nil
 			if endHook != nil {
 				m.inInstr = false
 				if err := endHook(); err != nil {
@@ -1043,8 +1043,14 @@ func (m *machine) exec(op byte, fExec bool, script []byte, in Instr, vfExec, vfE
 		*codeHash = in.End
 		return false, nil
 	case 0xac, 0xad: // CHECKSIG CHECKSIGVERIFY
+		if m.o.Sig == nil {
+			return false, &unsupported{"signature opcode without a checker"}
+		}
 		return false, m.checkSig(op, script[*codeHash:])
 	case 0xae, 0xaf: // CHECKMULTISIG CHECKMULTISIGVERIFY
+		if m.o.Sig == nil {
+			return false, &unsupported{"signature opcode without a checker"}
+		}
 		return false, m.checkMultiSig(op, script[*codeHash:], opCount)
 	}
 	// OP_RESERVED, OP_VER, OP_RESERVED1/2, 0xba..0xff and anything unknown
